@@ -289,9 +289,18 @@ func (s *Sim) queryLegacy(kind string, a queryArgs) (*queryAnswer, string) {
 		ans.params = append(ans.params, p)
 	}
 	if err != nil {
+		debugf("legacy %s: answer %s does not decode: %v", kind, bz, err)
 		return nil, errLegacyDecode
 	}
 	return ans, ""
+}
+
+// debugf prints a diagnostic on stderr when TRACE_DEBUG is set: the reasons
+// behind the coarse classes legacy-json-decode, invalid-genesis and json:….
+func debugf(format string, args ...interface{}) {
+	if os.Getenv("TRACE_DEBUG") != "" {
+		fmt.Fprintf(os.Stderr, "trace: debug: "+format+"\n", args...)
+	}
 }
 
 // answerLines renders an answer as the sorted Q lines of §4.1.
@@ -398,6 +407,7 @@ func (s *Sim) validateGenesis(res *StepResult) {
 		}
 	}()
 	if err := types.ValidateGenesis(*gs); err != nil {
+		debugf("validate: %v", err)
 		res.Class, res.Detail = classErr, "invalid-genesis"
 		return
 	}
@@ -433,7 +443,10 @@ func (s *Sim) jsonRoundTrip(res *StepResult) {
 				failed = true
 			}
 		}()
-		failed = cdc.UnmarshalJSON(bz, &back) != nil
+		err := cdc.UnmarshalJSON(bz, &back)
+		if failed = err != nil; failed {
+			debugf("jsonrt: %v", err)
+		}
 	}()
 	if failed {
 		res.Class, res.Detail = classErr, "json:unmarshal"
@@ -451,6 +464,10 @@ func (s *Sim) jsonRoundTrip(res *StepResult) {
 // the NEW app: its exported genesis as G lines and the raw scan of its service
 // store as state lines (H keeps the old height and time; no A/S lines). After
 // a panic the state lines show whatever the new store holds by then.
+//
+// InitGenesis panics with the error text of ValidateGenesis, which names
+// whichever offending context Go's map iteration meets first; to keep traces
+// reproducible that panic is printed as `R panic invalid-genesis`.
 func (s *Sim) reimport(res *StepResult) error {
 	gs := s.export(res)
 	if gs == nil {
@@ -463,10 +480,22 @@ func (s *Sim) reimport(res *StepResult) error {
 	if err := registerModules(k, s.modules, s.modsvc); err != nil {
 		return err
 	}
+	invalid := func() (bad bool) {
+		defer func() {
+			if r := recover(); r != nil {
+				bad = true
+			}
+		}()
+		return types.ValidateGenesis(*gs) != nil
+	}()
 	func() {
 		defer func() {
 			if r := recover(); r != nil {
 				res.Class, res.Detail, res.Answers = classPanic, panicText(r), nil
+				if invalid {
+					debugf("reimport: %s", res.Detail)
+					res.Detail = "invalid-genesis"
+				}
 			}
 		}()
 		service.InitGenesis(ctx, k, *gs)
